@@ -128,6 +128,32 @@ def r5_entries_guard(ck, F):
                 ok = ed is not None and diverges(b, ed[2]) and len(casts) >= 1 and all(b.dominates(site, c) for c in casts)
                 found += 1
                 ck.ob(R, f"entries-length-limit/{who}", ok, f"Entries::insert: assert!({who}.len() <= u32::MAX) dominates `{who}.len() as u32` in config {F.config}", b, site)
+    # the same limit spelled `assert!(u32::try_from(x.len()).is_ok())`, desugared into the match on the conversion
+    for bb in sorted(b.normal_blocks()):
+        if b.term(bb)["t"] != "switch":
+            continue
+        try:
+            e, enum, labels, oth = switch_on(b, bb)
+        except Exception:
+            continue
+        if e.k != "discr" or enum != "std::result::Result" or "Err" not in labels:
+            continue
+        a2 = e.a[0].strip()
+        if not (a2.k == "call" and a2.a and (a2.x["path"].endswith(">::try_from") or a2.x["path"].endswith("::try_into")) and ((a2.x.get("info") or {}).get("args", [""])[0] == "u32" or "for u32" in a2.x["path"])):
+            continue
+        x = a2.a[0]
+        if not (is_call(x, "::len") and x.strip().a[0].strip().k == "arg"):
+            continue
+        who = x.strip().a[0].strip().x["name"]
+        site = Site(bb, None)
+        casts = [s for s, s_ in b.sites() if s.i is not None and s_["s"] == "assign" and s_["rv"]["rv"] == "cast" and s_["rv"]["to"] == "u32" and is_call(b.expr_of_operand(s_["rv"]["op"], s), "::len") and is_arg(b.expr_of_operand(s_["rv"]["op"], s).strip().a[0], who)]
+        for s2, c2, t2 in b.calls():
+            e2 = b._expr_of_def((s2, "call", t2))
+            if e2.k == "cast" and e2.x.get("checked") and e2.x.get("to") == "u32" and is_call(e2.a[0], "::len") and is_arg(e2.a[0].strip().a[0], who):
+                casts.append(s2)
+        ok = diverges(b, labels["Err"]) and len(casts) >= 1 and all(b.dominates(site, c) for c in casts)
+        found += 1
+        ck.ob(R, f"entries-length-limit/{who}", ok, f"Entries::insert: assert!(u32::try_from({who}.len()).is_ok()) dominates the narrowing of {who}.len() in config {F.config}", b, site)
     ck.floor(R, "length-limit assertions in Entries::insert", found, 2, F.config)
 
 
